@@ -415,6 +415,9 @@ func replay(idx int, c *Case, mode string, out *[]Mismatch) {
 	if mode == "concurrent" {
 		srcMode = "sync"
 	}
+	if mode == "ctl-sync1" {
+		srcMode = "ctl-unsafe"
+	}
 	build := func(ctl *Ctl) ro.Observable[any] {
 		ctl.Hot = c.Hot
 		var o ro.Observable[any] = ctl.Observable(srcMode, c.Steps)
@@ -575,10 +578,25 @@ func replay(idx int, c *Case, mode string, out *[]Mismatch) {
 		}
 		check(r, len(c.Steps)-1, last, all, true)
 	} else {
+		skip := -1
 		for i, st := range c.Steps {
+			if i == skip {
+				continue // this push was emitted inside the subscription of the previous step (ctl-sync1)
+			}
 			for _, r := range reps {
 				switch st.Do {
 				case "sub":
+					if mode == "ctl-sync1" && i+1 < len(c.Steps) && c.Steps[i+1].Do == "push" {
+						// the source emits its first notification SYNCHRONOUSLY, inside its own subscription, and stays open afterwards (a hot
+						// source with a current value, a source with a synchronous prefix): sub + push are one step, observed after both
+						nx := c.Steps[i+1]
+						r.ctl.OnSub = func(cs *ctlSub) { emit(cs, nx.N) }
+						subscribe(r, i)
+						r.ctl.OnSub = nil
+						skip = i + 1
+						st = Step{Do: "sub", N: st.N, Exp: Exp{Log: append(append([]Notif(nil), st.Exp.Log...), nx.Exp.Log...), Closed: nx.Exp.Closed, Sub: nx.Exp.Sub, Torn: nx.Exp.Torn}}
+						break
+					}
 					subscribe(r, i)
 					if s, _ := r.ctl.counts(); s > 0 && !hasMarker(r.ctl.SubCtxMarkers, "sub") {
 						add(i, "ctx-missing", fmt.Sprintf("source subscribed with context %v (marker sub missing)", r.ctl.SubCtxMarkers))
